@@ -93,8 +93,12 @@ class Model:
         return {r: kv for r, kv in self.d.items()}
 
 
-def judge(ctx, kt, onchain, literal, ops, mode):
+def judge(ctx, kt, onchain, literal, ops, mode, big_id=None):
     """mode: 'onchain' (storage holds the id; `onchain` served by the node), 'literal' (storage holds a literal map)."""
+    global BIG_ID
+    # ids a chain really hands out start at 0
+    BIG_ID = big_id if big_id is not None else (0, 1, 4217, 2 ** 31)[(len(ops) + len(onchain) + ctx.evaluations) % 4]
+    ctx.count('big_map_id_%s' % ('0' if BIG_ID == 0 else 'positive'))
     from pytezos.michelson.repl import Interpreter
     from pytezos.rpc import RpcNode, ShellQuery
     wide = is_wide_comb(kt)
@@ -116,7 +120,7 @@ def judge(ctx, kt, onchain, literal, ops, mode):
     for op in ops:
         model.apply(op)
     storage = {'prim': 'Pair', 'args': [{'int': str(BIG_ID)} if mode == 'onchain' else P.render(O.sort_unique_pairs(kt, literal) if False else literal, T.map_(kt, VT), 'readable'), []]}
-    case = {'key_type': T.to_micheline(kt), 'mode': mode, 'onchain': [[P.render(k, kt, 'readable'), v] for k, v in onchain],
+    case = {'key_type': T.to_micheline(kt), 'mode': mode, 'big_map_id': BIG_ID, 'onchain': [[P.render(k, kt, 'readable'), v] for k, v in onchain],
             'literal': [[P.render(k, kt, 'readable'), v] for k, v in literal],
             'ops': [[o[0], P.render(o[1], kt, 'readable')] + ([None if o[2] is None else o[2][1]] if len(o) > 2 else []) for o in ops]}
     kinds = '+'.join(sorted({o[0] for o in ops}))
@@ -322,4 +326,4 @@ def replay(ctx, case):
     for o in case['ops']:
         k = P.parse(o[1], kt)
         ops.append((o[0], k) if len(o) == 2 else (o[0], k, None if o[2] is None else ('Some', o[2])))
-    judge(ctx, kt, onchain, literal, ops, case['mode'])
+    judge(ctx, kt, onchain, literal, ops, case['mode'], case.get('big_map_id'))
